@@ -313,14 +313,14 @@ SUBCHECKS = [
              nontrivial=lambda c: c["e1"] != c["e2"] and c["n1"] != c["n2"], quick=4000, thorough=300000, shards_quick=2, shards_thorough=8,
              rule="joins -> radiations reproduces point 2 within 1e-9 d (+4 ulp); bearing in [0, 360), clockwise from north"),
     SubCheck("radiation_arguments", check_radiate_args, strategy=rad_cases, quick=3000, thorough=200000, shards_quick=2, shards_thorough=8,
-             rule="rotation and psf arguments rotate / scale the radiated vector; joins inverts radiations"),
+             fresh=(8, 64, 3), rule="rotation and psf arguments rotate / scale the radiated vector; joins inverts radiations"),
     SubCheck("zenith_reduction", check_va, strategy=va_cases, nontrivial=lambda c: c["hi"] != 0 or c["ht"] != 0, quick=3000,
              thorough=200000, shards_quick=2, shards_thorough=8,
              rule="hz^2 + dh0^2 = slope^2 (1e-12), heights shift only dh, both zenith ranges"),
     SubCheck("first_velocity_correction", check_first_vel, strategy=atm_cases, classes=_cls_atm,
              nontrivial=lambda c: c["T"] != 0 and c["efrac"] != 0, quick=3000, thorough=200000, shards_quick=3, shards_thorough=12,
              seq_groups=[["dist", "kd"], ["lam"], ["T", "P", "efrac"], ["co2"], ["nref"]],
-             rule="defined on the whole atmosphere domain incl. 0 C / 0 %; Ciddor form = (n_ref / n_g - 1) d; linear in d; within 1 ppm "
+             fresh=(8, 64, 3), rule="defined on the whole atmosphere domain incl. 0 C / 0 %; Ciddor form = (n_ref / n_g - 1) d; linear in d; within 1 ppm "
                   "of the closed form at 420 ppm for carriers 0.5..1.0 um; sequences re-use the atmosphere with another carrier"),
     SubCheck("first_velocity_wet_bulb", check_wet_bulb, strategy=wet_cases, classes=_cls_atm, quick=1500, thorough=50000,
              shards_quick=1, shards_thorough=4, rule="closed form with a wet-bulb temperature (incl. exactly 0 C): defined, linear in d"),
